@@ -7,13 +7,31 @@
 #include "refdec.h"
 #include "vsched.h"
 
-static size_t g_maxSize;
-typedef struct { vparams P; hscript S; size_t n; int fam; int dictMode; size_t dictLen; int midReset; int sharedPool; int paramChange; int poll; char desc[700]; } mtw;
+static size_t g_maxSize; static int g_ringOnly; static size_t g_ringSize = 14u << 20;
+typedef struct { vparams P; hscript S; size_t n; int fam; int dictMode; size_t dictLen; int midReset; int sharedPool; int paramChange; int poll; int ring; char desc[700]; } mtw;
 
 static void gen_workload(vrng* r, mtw* W)
 {
     memset(W, 0, sizeof *W);
     vparams* P = &W->P; P->contentSize = 1;
+    if (vr_chance(r, 1, 8) || g_ringOnly) {
+        /* stratum "input ring laps": long-distance matching + >= 3 workers + smallest jobs + a small window, and an input several times the size of the
+         * round input buffer (window + a few jobs), so that the caller re-uses ring space while older jobs (and the serial LDM pass) still read it;
+         * data: recurring markers with differing tails, so that LDM candidates exist one lap apart */
+        W->ring = 1; P->level = (int)vr_range(r, 1, 3); vp_add(P, ZSTD_c_compressionLevel, P->level);
+        P->nbWorkers = (int)vr_range(r, 3, 4); vp_add(P, ZSTD_c_nbWorkers, P->nbWorkers); vp_add(P, ZSTD_c_jobSize, 1);
+        P->ldm = 1; vp_add(P, ZSTD_c_enableLongDistanceMatching, 1); P->windowLog = (int)vr_range(r, 21, 22); vp_add(P, ZSTD_c_windowLog, P->windowLog);     /* window >= nbWorkers x jobSize */
+        if (vr_chance(r, 1, 2)) vp_add(P, ZSTD_c_ldmHashRateLog, (int)vr_range(r, 0, 6)); if (vr_chance(r, 1, 2)) vp_add(P, ZSTD_c_overlapLog, (int)vr_range(r, 0, 9));
+        P->checksum = 1; vp_add(P, ZSTD_c_checksumFlag, 1); vp_redesc(P);
+        W->fam = DF_RANDOM; W->n = g_ringSize - vr_u(r, 100000);
+        h_gen_script(r, W->n, &W->S, 0);
+        /* bursty caller: big input slices (several jobs per call) and roomy output */
+        { size_t pos = 0; W->S.nseg = 0; while (pos < W->n && W->S.nseg < H_MAXSEG - 1) { size_t l = (size_t)vr_range(r, 1 << 20, 3 << 20); if (l > W->n - pos) l = W->n - pos; pos += l; W->S.seg[W->S.nseg].len = l; W->S.seg[W->S.nseg].dir = pos == W->n ? ZSTD_e_end : vr_chance(r, 1, 3) ? ZSTD_e_flush : ZSTD_e_continue; W->S.nseg++; } }
+        W->S.nOut = 1; W->S.outPat[0] = (size_t)1 << 22; W->S.api = 0; snprintf(W->S.desc, sizeof W->S.desc, "nseg=%d bursty(1-3 MiB slices) out=4MiB", W->S.nseg);
+        W->poll = vr_chance(r, 1, 3);
+        snprintf(W->desc, sizeof W->desc, "RING n=%zu params=[%s] script{%s} poll=%d", W->n, P->desc, W->S.desc, W->poll);
+        return;
+    }
     int const level = vr_chance(r, 1, 6) ? (int)vr_range(r, 4, 9) : (int)vr_range(r, -3, 3); P->level = level; vp_add(P, ZSTD_c_compressionLevel, level);
     P->nbWorkers = (int)vr_range(r, 1, vr_chance(r, 1, 4) ? 6 : 3); vp_add(P, ZSTD_c_nbWorkers, P->nbWorkers);
     {   int const js = (int)vr_u(r, 4); if (js == 0) vp_add(P, ZSTD_c_jobSize, 1); else if (js == 1) vp_add(P, ZSTD_c_jobSize, (int)vr_range(r, 1 << 20, 3 << 20)); else if (js == 2) vp_add(P, ZSTD_c_jobSize, 1500000); }   /* jobs longer than four blocks exercise intra-job progress reporting */
@@ -45,7 +63,8 @@ static void on_stuck(const sched_result* r)
 /* one execution of the workload; returns compressed size or error */
 static size_t execute(const mtw* W, const uint8_t* x, const uint8_t* dict, uint8_t* dst, size_t cap, uint64_t schedSeed, int mode, int depth, sched_result* SR)
 {
-    sched_begin(schedSeed, mode, depth, 3000, 3000000ULL, 10);   /* step bound: ~1000x the typical run */
+    /* spurious wake-ups are legal but each one can rescue a lost wake-up: only one schedule in three injects them */
+    sched_begin(schedSeed, mode, depth, 3000, 3000000ULL, (schedSeed % 3 == 0) ? 10 : 0);   /* step bound: ~1000x the typical run */
     sched_set_op("ZSTD_createCCtx");
     ZSTD_CCtx* c = ZSTD_createCCtx(); ZSTD_threadPool* tp = NULL; size_t cs = 0;
     if (W->sharedPool) { tp = ZSTD_createThreadPool((size_t)W->P.nbWorkers); ZSTD_CCtx_refThreadPool(c, tp); }
@@ -106,18 +125,24 @@ static void run_case(long idx, long nsched)
 {
     long const wid = idx / nsched; vrng wr = vr_make(V.seed, 111, (uint64_t)wid);
     mtw W; gen_workload(&wr, &W); g_desc = W.desc;
-    vrng dr = vr_make(V.seed, 311, (uint64_t)wid); gen_data(&dr, g_x, W.n, W.fam); if (W.dictLen) { gen_data(&dr, g_dict, W.dictLen, W.fam); memcpy(g_dict, g_x + W.n / 3, V_MIN(W.dictLen, W.n / 3)); if (g_dict[0] == 0x37 && g_dict[1] == 0xA4) g_dict[0] ^= 1; }
+    vrng dr = vr_make(V.seed, 311, (uint64_t)wid);
+    if (W.ring) {   /* every 512 KiB section (= one job) holds the same 1 KiB markers at the same offsets, each followed by a 1 KiB tail that depends on
+                     * (cell, section index mod nbWorkers): the section that refills a ring slot equals the section being parsed, and differs from the slot's old content */
+        static uint8_t mk[256][1024]; static uint8_t tl[4][256][1024]; for (int i = 0; i < 256; i++) { vr_fill(&dr, mk[i], 1024); for (int q = 0; q < 4; q++) vr_fill(&dr, tl[q][i], 1024); }
+        size_t const sec = 512u << 10; int const q = W.P.nbWorkers;
+        for (size_t p = 0; p < W.n; p += 2048) { size_t const k = p / sec; size_t const cell = (p % sec) / 2048; size_t l = V_MIN((size_t)1024, W.n - p); memcpy(g_x + p, mk[cell], l); if (p + 1024 < W.n) { l = V_MIN((size_t)1024, W.n - p - 1024); memcpy(g_x + p + 1024, tl[k % (size_t)q][cell], l); } } }
+    else gen_data(&dr, g_x, W.n, W.fam); if (W.dictLen) { gen_data(&dr, g_dict, W.dictLen, W.fam); memcpy(g_dict, g_x + W.n / 3, V_MIN(W.dictLen, W.n / 3)); if (g_dict[0] == 0x37 && g_dict[1] == 0xA4) g_dict[0] ^= 1; }
     sched_result SR;
     if (g_refWorkload != wid) {      /* reference schedule of this workload (first use in this process) */
         g_refSize = execute(&W, g_x, g_dict, g_ref, g_cap, 0xC0FFEEULL + (uint64_t)wid, SCHED_UNIFORM, 0, &SR); g_refWorkload = wid;
         if (!ZSTD_isError(g_refSize)) verify(&W, g_ref, g_refSize, "reference schedule");
-        v_cell("workload", "%ld", wid); v_cell("mtcfg", "w%d|ldm%d|rsync%d|dict%d|reset%d|pool%d|chg%d", W.P.nbWorkers, W.P.ldm, strstr(W.P.desc, "500=1") != NULL, W.dictMode, W.midReset, W.sharedPool, W.paramChange);
+        v_cell("workload", "%ld", wid); if (W.ring) v_stat("ring_lap_workloads", 1); v_cell("mtcfg", "w%d|ldm%d|rsync%d|dict%d|reset%d|pool%d|chg%d", W.P.nbWorkers, W.P.ldm, strstr(W.P.desc, "500=1") != NULL, W.dictMode, W.midReset, W.sharedPool, W.paramChange);
     }
     if (ZSTD_isError(g_refSize)) { if (ZSTD_getErrorCode(g_refSize) != ZSTD_error_memory_allocation) v_viol("compress:mt-compression-fails", "%s: %s", W.desc, ZSTD_getErrorName(g_refSize)); v_stat("schedules", 1); return; }
     vrng sr = vr_make(V.seed, 411, (uint64_t)idx);
     int const mode = vr_chance(&sr, 1, 3) ? SCHED_PCT : SCHED_UNIFORM; int const depth = 1 + (int)vr_u(&sr, 3);
     size_t const cs = execute(&W, g_x, g_dict, g_var, g_cap, vr_next(&sr), mode, depth, &SR);
-    v_stat("schedules", 1); v_stat("sched_steps", (long)SR.steps); v_stat("cond_waits", (long)SR.cond_waits); v_stat("mutex_blocks", (long)SR.mutex_blocks); v_stat("preemptions", (long)SR.preemptions); if (SR.cond_waits) v_stat("schedules_where_a_thread_waited_on_a_condition", 1);
+    v_stat("schedules", 1); v_stat("sched_steps", (long)SR.steps); v_stat("cond_waits", (long)SR.cond_waits); v_stat("mutex_blocks", (long)SR.mutex_blocks); v_stat("preemptions", (long)SR.preemptions); v_stat("broadcasts_with_several_waiters", (long)SR.broadcasts_with_several_waiters); v_stat("signals_with_several_waiters", (long)SR.signals_with_several_waiters); if (SR.cond_waits) v_stat("schedules_where_a_thread_waited_on_a_condition", 1);
     note_schedule(SR.hash ^ vr_mix((uint64_t)wid));
     if (ZSTD_isError(cs)) { v_viol("compress:fails-under-another-schedule", "%s: %s", W.desc, ZSTD_getErrorName(cs)); return; }
     if (cs != g_refSize || memcmp(g_ref, g_var, cs)) {
@@ -142,9 +167,10 @@ int main(int argc, char** argv)
 {
     v_init(argc, argv); vp_trace_on = 0;
     sched_on_stuck = on_stuck; signal(SIGALRM, on_alarm);
-    g_maxSize = (size_t)v_opt_long("maxsize", V.thorough ? (8 << 20) : (5 << 20));
+    g_maxSize = (size_t)v_opt_long("maxsize", V.thorough ? (8 << 20) : (5 << 20)); g_ringOnly = (int)v_opt_long("ringonly", 0);
     long const nsched = v_opt_long("nsched", 25);
-    g_cap = ZSTD_compressBound(g_maxSize) + 4096; g_x = (uint8_t*)malloc(g_maxSize + 64); g_dict = (uint8_t*)malloc(70000); g_ref = (uint8_t*)malloc(g_cap); g_var = (uint8_t*)malloc(g_cap); g_out = (uint8_t*)malloc(g_maxSize + 64);
+    { size_t const keep = g_maxSize; if (g_ringSize > g_maxSize) g_maxSize = g_ringSize;      /* buffers sized for the ring-lap stratum */
+    g_cap = ZSTD_compressBound(g_maxSize) + 4096; g_x = (uint8_t*)malloc(g_maxSize + 64); g_dict = (uint8_t*)malloc(70000); g_ref = (uint8_t*)malloc(g_cap); g_var = (uint8_t*)malloc(g_cap); g_out = (uint8_t*)malloc(g_maxSize + 64); g_maxSize = keep; }
     for (long i = V.from; i < V.to; i++) { v_case(i); alarm(600); run_case(i, nsched); alarm(0); }
     v_stat("distinct_schedules", g_distinct);
     return v_finish();
